@@ -19,36 +19,43 @@ from translate import c01_kvser
 
 MANIFEST = dict(
     technique='Rocq proof over objects generated from vmf.py by fail-closed ast translators: write templates, key tables, '
-              'displacement array shapes, entity-loop shape (round 1) and, since round 2, every export method as a structured '
-              'write program (lines, blocks, optional wrappers, conditionals, loops, calls) plus the reader configuration of row '
-              'keys and the separators/field order of outputs; the block theorem composes the string-level theorems with the C01 '
-              'KeyValues1 tokenizer/parser model; vm_compute correspondence of the escape/scanner/rounding/output/fixup models; '
-              'round-trip search on real VMF objects',
-    text='Theorems in Props/C06.v (29): the tokenizer\'s quoted-string scanner inverts escape_text for every string in both modes; '
+              'displacement array shapes, entity-loop shape (round 1); every export method as a structured write program plus the '
+              'reader configuration of row keys and the separators/field order of outputs (round 2; the separator logic is evaluated '
+              'symbolically); since round 3 the formatter of every written number, the guard of the optional multiblend arrays, an '
+              'object-level table (which attributes every written key is computed from / every looked-up key flows into, by data-flow '
+              'analysis of the parse methods and constructors) and the displacement flag tables; the block theorem composes the '
+              'string-level theorems with the C01 KeyValues1 tokenizer/parser model; vm_compute correspondence of the '
+              'escape/scanner/rounding/output/fixup/number-group-text models; round-trip search on real VMF objects',
+    text='Theorems in Props/C06.v (51): the tokenizer\'s quoted-string scanner inverts escape_text for every string in both modes; '
          'every keyvalue line whose interpolations are escaped strings, numbers or plain literals re-reads as its field values (a raw '
-         'string field does not); for every generated export program that passes prog_ok, every environment (any field contents, '
-         'any outcome of conditions, any number of loop iterations and callees) and call depth, the text written parses -- C01 '
-         'tokenizer and Keyvalues.parse model -- to exactly the tree of keys, values and child blocks the writer was given; every '
-         'written key/block name is looked up by a reader in the same block; displacement rows have exactly the length the reader '
-         'demands for power 1..4 and the reader recognises every row key written (row0..row16); output values survive as_keyvalue/'
-         'parse for fields free of the separator (both forms, extra commas in the parameter), instance:name;command names survive; '
-         'replaceNN lines and EntityFixup index bookkeeping keep up to 99 distinctly named fixups with their indexes; correctly '
-         'rounded %.6f / %g output is within 5e-7 / six significant digits; reading entity and hidden blocks in file order preserves '
-         'entity order. 83 instance obligations (per writer method, per program, per array, per power, loop shape, separators) are '
-         'regenerated from vmf.py and kernel-checked on every run. The search builds maps through the public API (all object kinds, '
-         'options minimal/disp_multiblend/preserve_ids, every tests/*.vmf) and checks text fixed point and field-by-field equality '
-         'with the stated tolerances.',
+         'string field does not); for every generated export program that passes prog_ok, every environment and call depth, the text '
+         'written parses -- C01 tokenizer and Keyvalues.parse model -- to exactly the tree of keys, values and child blocks the writer '
+         'was given; every written key/block name is looked up by a reader in the same block; for each of eight classes of the object '
+         'graph every written literal key is read into exactly the attributes its value was computed from, no attribute the reader fills '
+         'is forgotten by the writer, and the text found under a key does not depend on other attributes (no cross-talk); displacement rows '
+         'have exactly the length the reader demands for power 1..4 and the reader recognises every row key written; the multiblend '
+         'arrays are written exactly when the member their primary array carries is non-default; the 16 displacement flag values survive '
+         'the flags/subdiv tables; output values survive as_keyvalue/parse for fields free of the separator, instance:name;command names '
+         'survive; replaceNN lines and EntityFixup index bookkeeping keep up to 99 distinctly named fixups; every number of every '
+         'written line is written by a formatter that keeps the precision the property demands of that field (5e-7 absolutely, six '
+         'significant digits for face rotation / output delay / multiblend, exact for integers and flags), and the table is tight; '
+         '"x y z" in any bracket pair and "[x y z offset] scale" are taken apart into their number tokens by parse_vec_str / '
+         'UVAxis.parse; reading entity and hidden blocks in file order preserves entity order. 267 instance obligations are regenerated '
+         'from vmf.py / math.py and kernel-checked on every run. The search builds maps through the public API (all object kinds, options '
+         'minimal/disp_multiblend/preserve_ids, every tests/*.vmf) and checks text fixed point and field-by-field equality with the '
+         'stated tolerances.',
     note='Partial with respect to the whole-map statement: text -> KeyValues tree is proved for all export methods; tree -> object is '
-         'proved per block (keys read), per array, per output value, per fixup line, not for whole objects (no Gallina model of the '
-         'VMF object graph; Vec.from_str, UVAxis.parse, allowed_verts, flags tables, ID managers are search-only), and the number '
-         'format used by each field is not tied to the rounding theorems per field. Trusted: Coq kernel + vm_compute, '
-         'translate/c06_vmf.py and translate/c06_prog.py (key table cross-checked against really exported text on every run), the '
-         'hand field-type table (validated on real objects), the C01 KeyValues1 model (tied by C01\'s own check), CPython number '
-         'formatting being correctly rounded and producing no quote/backslash/newline, str.split/join/int/casefold as modelled. '
-         'Format limits excluded from the generator (docs/C06.md): keys that look like replaceNN / id, LF/CR in key names, the '
-         'separator character inside output fields, fixup names with a space, >99 fixups, group/visgroup membership of brush-entity '
-         'solids, 2D viewport coordinates of exactly +-65536. Known findings: "-0" text (math.format_float, C05) and cordon_enabled '
-         'without cordons.',
+         'proved per class at the level "which attribute receives which key" (flat: child lists are paired only as exported/parsed '
+         'attributes, there is no recursive Gallina object graph), per array, per output value, per fixup line, per number group; the '
+         'plane triple, allowed_verts, viewport axis selection, ID managers and membership sets are search-only; float(token) is '
+         'outside the token models. Trusted: Coq kernel + vm_compute, translate/c06_vmf.py, c06_prog.py, c06_lite.py (key table '
+         'cross-checked against really exported text, number formats against really exported numbers, on every run), the hand tables '
+         '(field types, number kinds, required precision per field, class -> methods, ARRAY_ATTRS, ALIAS_ATTRS), the C01 KeyValues1 model '
+         '(tied by C01\'s own check), CPython number formatting being correctly rounded and producing no quote/backslash/newline, '
+         'str.split/join/strip/int/casefold as modelled. Format limits excluded from the generator (docs/C06.md): keys that look like '
+         'replaceNN / id, LF/CR in key names, the separator character inside output fields, fixup names with a space, >99 fixups, '
+         'group/visgroup membership of brush-entity solids, 2D viewport coordinates of exactly +-65536. Known findings: "-0" text '
+         '(math.format_float, C05) and cordon_enabled without cordons.',
 )
 
 # The precision the property demands of every number, by (block, literal key text, index of the number in the value) of the
@@ -74,7 +81,7 @@ def required_class(block: str, key: str, idx: int) -> str:
 
 IMPORTS = ['Coq.NArith.NArith', 'Coq.ZArith.ZArith', 'Coq.Lists.List', 'Coq.Strings.String', 'SV.KV.KvBase', 'SV.Fmt.VmfText',
            'SV.Fmt.VmfBlocks', 'SV.Gen.VmfTemplates_gen', 'SV.Gen.VmfKeys_gen', 'SV.Gen.VmfDispSizes_gen', 'SV.Gen.VmfOrder_gen',
-           'SV.Gen.VmfProg_gen', 'SV.Fmt.VmfFields', 'SV.Gen.VmfFieldsCfg_gen', 'SV.Fmt.VmfNum', 'SV.Gen.VmfNumFmt_gen', 'SV.Fmt.VmfGuard', 'SV.Fmt.VmfLite', 'SV.Gen.VmfLite_gen', 'SV.Fmt.VmfFlags', 'SV.Gen.VmfFlags_gen', 'SV.Fmt.VmfTok', 'SV.KV.KvSym', 'SV.Gen.KVSer_gen', 'SV.Props.C06']
+           'SV.Gen.VmfProg_gen', 'SV.Fmt.VmfFields', 'SV.Gen.VmfFieldsCfg_gen', 'SV.Fmt.VmfNum', 'SV.Gen.VmfNumFmt_gen', 'SV.Fmt.VmfGuard', 'SV.Fmt.VmfLite', 'SV.Gen.VmfLite_gen', 'SV.Fmt.VmfFlags', 'SV.Gen.VmfFlags_gen', 'SV.Fmt.VmfTok', 'SV.Fmt.VmfPlane', 'SV.KV.KvSym', 'SV.Gen.KVSer_gen', 'SV.Props.C06']
 PRE = '''Import ListNotations. Open Scope string_scope.
 Fixpoint nl_eqb (a b : list N) : bool := match a, b with [], [] => true | x :: a', y :: b' => N.eqb x y && nl_eqb a' b' | _, _ => false end.
 Fixpoint bad_idx {A} (f : A -> bool) (n : N) (l : list A) : list N := match l with [] => [] | x :: r => (if f x then [] else [n]) ++ bad_idx f (n + 1)%N r end.
@@ -85,7 +92,7 @@ Fixpoint bad_idx {A} (f : A -> bool) (n : N) (l : list A) : list N := match l wi
 def corr_escape(ck: Ck) -> None:
     """escape / scan_quoted of Fmt/VmfText.v against srctools.tokenizer.escape_text and the real Tokenizer."""
     from srctools.tokenizer import Tokenizer, Token, TokenSyntaxError, escape_text
-    n = ck.budget(400, 4000)
+    n = ck.budget(300, 4000)
     alpha = ['"', '\\', '\n', '\r', '\t', 'n', 't', 'r', '/', '?', "'", ' ', 'a', 'Z', '0', '{', '}', '\x0b', '\x08', '\x0c',
              '\x07', 'é', '\U0001f600', '\x1b', ',', 'v', 'b', 'f']
     esc_cases, scan_cases = [], []
@@ -292,7 +299,7 @@ def corr_tokens(ck: Ck) -> None:
     pool = ['0', '1', '-1', '0.5', '-0.25', '16384', '1e+06', '-3.5e-05', '0.000001', '123456.789', '7', '2.5']
     val = {float(t): t for t in pool}
     assert len(val) == len(pool)
-    n = ck.budget(250, 1500)
+    n = ck.budget(200, 1500)
     v_cases, u_cases, t_cases = [], [], []
     for _ in range(n):
         k = ck.rng.choice([3, 3, 3, 3, 2, 4, 1])
@@ -377,6 +384,82 @@ Definition chk5 (s : list N) : option (list (list N)) := match uv_parse s with S
     for name, bad, cases in (('vec_text_parse', bv, v_cases), ('uvaxis_text_parse', bu, u_cases), ('number_group_text_written', bt, t_cases)):
         if bad:
             ck.tie_broken.append(f'correspondence {name} (Fmt/VmfTok.v vs math.py / vmf.py)')
+            ck.extra[f'{name}_disagreement'] = repr(cases[bad[0]])
+
+
+def corr_plane(ck: Ck) -> None:
+    """plane_parse of Fmt/VmfPlane.v (composed with parse_vec of Fmt/VmfTok.v) against the planes of the real Side.parse on
+    generated values of the "plane" key (well-formed, 2 or 4 groups, other outer characters, inner brackets, extra spaces),
+    and plane_text against the value of the "plane" line really written by Side.export."""
+    import io
+    from srctools.keyvalues import Keyvalues
+    from srctools.math import Vec, format_float
+    from srctools.vmf import VMF, Side
+    pool = ['0', '1', '-1', '0.5', '-0.25', '16384', '1e+06', '-3.5e-05', '0.000001', '123456.789', '7', '2.5']
+    val = {float(t): t for t in pool}
+    n = ck.budget(150, 1000)
+    vmf = VMF()
+    p_cases, w_cases = [], []
+    for _ in range(n):
+        k = ck.rng.choice([3, 3, 3, 3, 3, 2, 4])
+        groups = [' '.join(ck.rng.choice(pool) for _ in range(ck.rng.choice([3, 3, 3, 3, 2, 4]))) for _ in range(k)]
+        form = ck.rng.choice(['std', 'std', 'std', 'std', 'sq', 'wide', 'inner'])
+        if form == 'std':
+            text = '(' + ') ('.join(groups) + ')'
+        elif form == 'sq':           # the first and the last character are dropped whatever they are
+            text = '[' + ') ('.join(groups) + ']'
+        elif form == 'wide':
+            text = '(' + ')  ('.join(groups) + ')'
+        else:
+            text = '(' + ') ('.join('[' + g + ']' for g in groups) + ')'
+        try:
+            sd = Side.parse(vmf, Keyvalues('side', [Keyvalues('plane', text)]))
+            exp = [[val.get(c) for c in (v.x, v.y, v.z)] for v in sd.planes]
+            if any(t is None for g in exp for t in g):
+                continue
+        except ValueError:
+            exp = None
+        p_cases.append((text, exp))
+        ck.count('plane_text_cases')
+        ck.hist('plane_text_shape', f'{k} groups {form}')
+        ck.seen(('planetext', text))
+        vs = [Vec(*(float(ck.rng.choice(pool)) for _ in range(3))) for _ in range(3)]
+        buf = io.StringIO()
+        Side(vmf, vs).export(buf, '')
+        line = next(kv for kv in next(iter(Keyvalues.parse(buf.getvalue()))) if kv.name == 'plane')
+        w_cases.append(([' '.join(format_float(c) for c in (v.x, v.y, v.z)) for v in vs], line.value))
+        ck.count('plane_written_cases')
+    ck.sample({'plane_text_case(value, planes of Side.parse)': list(p_cases[1])})
+
+    def optg(e: Any) -> str:
+        return 'None' if e is None else 'Some ' + coq_list(coq_list(coq_str(t) for t in g) for g in e)
+    lit_p = coq_list(f'({coq_str(t)}, {optg(e)})' for t, e in p_cases[:500])
+    lit_w = coq_list(f'({coq_list(coq_str(t) for t in g)}, {coq_str(v)})' for g, v in w_cases[:500])
+    pre = PRE + '''Open Scope N_scope.
+Fixpoint nll_eqb (a b : list (list N)) : bool := match a, b with [], [] => true | x :: a', y :: b' => nl_eqb x y && nll_eqb a' b' | _, _ => false end.
+Fixpoint nlll_eqb (a b : list (list (list N))) : bool := match a, b with [], [] => true | x :: a', y :: b' => nll_eqb x y && nlll_eqb a' b' | _, _ => false end.
+Definition vec_or_zero (s : list N) : list (list N) := match parse_vec s with
+  | Some (x, y, z) => if (tok_ok x && tok_ok y && tok_ok z)%bool then [x; y; z] else [[48]; [48]; [48]] | None => [[48]; [48]; [48]] end.
+Definition plane_chk (s : list N) : option (list (list (list N))) := match plane_parse s with
+  | Some (a, b, c) => Some [vec_or_zero a; vec_or_zero b; vec_or_zero c] | None => None end.
+'''
+    vals = ck.coq_eval(IMPORTS, [
+        f'bad_idx (fun c : list N * option (list (list (list N))) => match plane_chk (fst c), snd c with Some a, Some b => nlll_eqb a b '
+        f'| None, None => true | _, _ => false end) 0%N {lit_p}',
+        f'bad_idx (fun c : list (list N) * list N => match fst c with [a; b; d] => nl_eqb (plane_text a b d) (snd c) | _ => false end) 0%N {lit_w}'],
+        name='plane', preamble=pre)
+    if vals is None:
+        ck.obligation('correspondence:plane_text', False, 'model could not be evaluated')
+        ck.tie_broken.append('correspondence plane text: model evaluation failed')
+        return
+    bp, bw = (parse_coq_N_list(v) for v in vals)
+    ck.obligation('correspondence:plane_text_parse', not bp, f'{min(len(p_cases), 500)} values of the plane key, Fmt/VmfPlane.plane_parse + '
+                  f'Fmt/VmfTok.parse_vec vs the planes of Side.parse: {len(bp)} disagreements')
+    ck.obligation('correspondence:plane_text_written', not bw, f'{min(len(w_cases), 500)} faces, Fmt/VmfPlane.plane_text vs the plane line written by '
+                  f'Side.export: {len(bw)} disagreements')
+    for name, bad, cases in (('plane_text_parse', bp, p_cases), ('plane_text_written', bw, w_cases)):
+        if bad:
+            ck.tie_broken.append(f'correspondence {name} (Fmt/VmfPlane.v vs vmf.py)')
             ck.extra[f'{name}_disagreement'] = repr(cases[bad[0]])
 
 
@@ -726,9 +809,10 @@ def feature_hist(ck: Ck, spec: dict) -> bool:
 
 
 def search(ck: Ck) -> None:
-    # quick: 360 maps (450 until round 3; lowered to keep the quick tier below 90 s on a loaded machine now that the proof side has
-    # 100 more obligations); quick with a broken tie: 3000; thorough: 7500
-    n = 7500 if ck.thorough else ck.budget(360, 3000)
+    # quick: 240 maps (450 until round 3; lowered to keep the quick tier below 90 s on a heavily loaded machine now that the proof side
+    # has 140 more obligations and four more correspondences; the directed corpus and the shipped files run first in any case);
+    # quick with a broken tie: 2000; thorough: 7500
+    n = 7500 if ck.thorough else ck.budget(240, 2000)
     found: dict[str, tuple[dict, str, dict]] = {}
     # Shrinking budget, counted in oracle evaluations (not wall time, so that results are reproducible): per violation key
     # and in total.  A fault in a hot path produces dozens of keys on big maps; the total keeps a failing run within minutes.
@@ -803,6 +887,9 @@ def run(ck: Ck) -> None:
                'alphabet rich in escapes (non-trivial = contains quote/backslash/newline), doubles with decimal-boundary values '
                '(non-trivial = non-integral); output values of 3..7 fields over an alphabet holding both separators (all distinct values count); '
                'fixup lists with duplicate/zero/negative indexes and equal names (non-trivial = some index repeated). '
+               'Number-group texts (Vec/Angle/UVAxis/plane triple): tokens from a pool of pairwise different numbers, brackets of all four '
+               'kinds, doubled and mismatched brackets, extra white space, 1..6 tokens, 2..4 plane groups (non-trivial = has a bracket; every '
+               'UVAxis and plane text counts). '
                'Shipped files: every tests/**/*.vmf x preserve_ids x minimal.')
     ck.trusted.append('hand tables in translate/c06_vmf.py (field types, call graph of export methods, parse roots, vertex arity), '
                       'validated on real objects / really exported text on every run')
@@ -810,6 +897,8 @@ def run(ck: Ck) -> None:
     ck.trusted.append('translate/c06_prog.py: extraction of the block structure of the export methods (shares the call table and the '
                       'template classification with c06_vmf.py); hand models of Output.parse / EntityFixup.__init__ in rocq/Fmt/VmfFields.v '
                       '(tied by differential correspondence and by the generated separators / field order)')
+    ck.trusted.append('translate/c06_lite.py: data-flow analysis of the parse methods and constructors (object-level table), hand tables CLASSES, '
+                      'ARRAY_ATTRS, ALIAS_ATTRS; the hand table of the precision class each written number must keep (REQUIRED_* in checks/c06.py)')
     ck.trusted.append('the C01 KeyValues1 tokenizer/parser model rocq/KV/* (imported read-only; tied to keyvalues.py/tokenizer.py by check C01)')
     ck.assumptions += [
         'CPython float formatting (%.6f, %g, repr) is correctly rounded and its output contains only digits, sign, point, exponent, '
@@ -898,6 +987,7 @@ def run(ck: Ck) -> None:
         corr_rounding(ck)
         corr_output_fixup(ck)
         corr_tokens(ck)
+        corr_plane(ck)
         try:
             validate_tables(ck, tr.get('VmfTemplates_gen', {}), tr.get('VmfKeys_gen', {}))
         except Exception as e:     # the rich map itself may fail to export when the source is broken: the search reports that
@@ -927,6 +1017,7 @@ def run(ck: Ck) -> None:
         ck.explain('correspondence:vec_text_parse')
         ck.explain('correspondence:uvaxis_text_parse')
         ck.explain('correspondence:number_group_text_written')
+        ck.explain('correspondence:plane_text_')
     if any('isplacement' in k or 'disp' in k for k in keys):
         ck.explain('instance:disp_shape')
         ck.explain('instance:disp_arrays_complete')
